@@ -170,13 +170,76 @@ def parse_deadlock(d):
     return (int(m.group(1)), json.loads(m.group(2)), m.group(3).strip()) if m else (None, None, None)
 
 
+def run_batches_keep(ctx, exe, args, total, log_path, timeout=3000, max_deaths=6):
+    """vlib.run_batches, but the events of an execution that died are kept (death["tail"]) instead of being dropped:
+    whatever the monitor rejects in that prefix is a violation even though the process crashed afterwards."""
+    k, sums, deaths = 0, [], []
+    open(log_path, "w").close()
+    while k < total:
+        rc, so, se = vlib.run_exe(exe, list(args) + ["--from", k, "--to", total, "--log", log_path], timeout=timeout)
+        summ = None
+        for ln in so.splitlines():
+            if ln.startswith("{"):
+                try:
+                    summ = json.loads(ln)
+                except Exception:
+                    pass
+        if summ:
+            sums.append(summ)
+        d = vlib.classify_death(rc, se)
+        if d is None:
+            break
+        x = vlib.last_exec_id(log_path)
+        if x is None or x < k:
+            x = k
+        d["x"] = x
+        lines = open(log_path, errors="replace").read().splitlines(True)
+        idx = max((i for i, l in enumerate(lines) if '"e":"Reset"' in l), default=None)
+        d["tail"] = lines[idx:] if idx is not None else []
+        vlib.truncate_after_last_reset(log_path)
+        deaths.append(d)
+        if len(deaths) >= max_deaths:
+            ctx.rep.note("stopped after %d deaths" % len(deaths))
+            break
+        k = x + 1
+    return sums, deaths
+
+
+DEATH_EVENTS = ('"e":"Deadlock"', '"e":"Crash"', '"e":"Terminate"', '"e":"Hang"', '"e":"AsanReport"')
+
+
+def judge_tail(rn, name, mode, d):
+    """Validate the recorded prefix of an execution that ended in a crash / sanitizer report against the monitor."""
+    tail = [l for l in d.get("tail") or [] if l.strip().startswith("{") and not any(k in l for k in DEATH_EVENTS)]
+    good = []
+    for l in tail:                       # drop a torn last line
+        try:
+            json.loads(l)
+            good.append(l)
+        except Exception:
+            break
+    if len(good) < 2:
+        return None
+    p = os.path.join(rn.ctx.work, "tail_%s_%s_%s.ndjson" % (name.replace("+", "_"), mode, d["x"]))
+    open(p, "w").writelines(good)
+    import types
+    cx = types.SimpleNamespace(work=rn.ctx.work, rep=vlib.Report(rn.ctx.prop, rn.ctx.tier, rn.ctx.seed))
+    with rn.tlc_sem:
+        r = vlib.validate_trace(cx, "sched", "SchedMon", p)
+    os.remove(p)
+    if r["prefix"] < r["total"]:         # an EVENT was rejected (not merely the end-of-execution obligations)
+        return dict(prefix=r["prefix"], total=r["total"], events=[json.loads(l) for l in good])
+    return None
+
+
 def exec_one(rn, job):
     name, scns, mode, args, total = job
     ctx, rep, stats = rn.ctx, rn.ctx.rep, rn.stats
     t0 = time.time()
     lp = os.path.join(ctx.work, "log_%s_%s.ndjson" % (name.replace("+", "_"), mode))
-    sums, deaths = vlib.run_batches(ctx, rn.exe, args, total, lp, timeout=3000, max_deaths=6)
+    sums, deaths = run_batches_keep(ctx, rn.exe, args, total, lp)
     execs = sum(s["execs"] for s in sums)
+    tails = [(d, judge_tail(rn, name, mode, d)) for d in deaths if d["event"] not in ("Deadlock", "Hang")]
     with rn.lock:
         rep.evaluations += execs
         for s in sums:
@@ -210,6 +273,15 @@ def exec_one(rn, job):
             else:
                 rep.oos.append(rec)       # C06 is not a lifetime property: memory events are out-of-scope observations
                 rep.note("out-of-scope memory/crash event: " + what + " " + (d.get("stderr_tail", "") or "")[-300:])
+                rj = next((t for dd, t in tails if dd is d), None)
+                if rj:                    # ... but what the monitor rejects BEFORE the crash is a violation
+                    evs = rj["events"]
+                    hdr, bad = evs[0], evs[rj["prefix"]]
+                    scn2 = rn.byscn.get((hdr.get("scn"), hdr.get("wrap", "")))
+                    rep.violation(dict(engine="sched", ctx=name, mode=mode, event="MonitorReject", unit=unit, scn=hdr.get("scn"),
+                                       what="SchedMon rejects event %s of an execution of %s (scenario %s, %s mode) that afterwards ended in %s"
+                                            % (json.dumps(bad), name, json.dumps(scn2 and scn2["prog"]), mode, d["event"]),
+                                       scenario=scn2, rejected_event=bad, events=evs, died=d["event"]))
         rep.note("%s/%s: %d executions in %.1fs" % (name, mode, execs, time.time() - t0))
     return lp
 
@@ -338,8 +410,8 @@ def part_mel(rn):
     ctx, rep, q = rn.ctx, rn.ctx.rep, rn.ctx.quick
     scns = gen_mel(ctx.tier)
     sp = dump(ctx, "mel_scenarios.json", scns)
-    rn.submit("mel", scns, "dfs", ["--mode", "dfs", "--scenarios", sp, "--bound", 2 if q else 3, "--cap", 40 if q else 400], len(scns))
-    rn.submit("mel", scns, "random", ["--mode", "random", "--scenarios", sp, "--seed", ctx.seed, "--cap", 20 if q else 100], len(scns))
+    rn.submit("mel", scns, "dfs", ["--mode", "dfs", "--scenarios", sp, "--bound", 2 if q else 3, "--cap", 30 if q else 400], len(scns))
+    rn.submit("mel", scns, "random", ["--mode", "random", "--scenarios", sp, "--seed", ctx.seed, "--cap", 15 if q else 100], len(scns))
     # the same programs through the type-erased / sub-scheduler wrappers
     sub = scns[:22]
     for wrap, dcap, rcap in (("any", 15, 8), ("ref", 8, 5), ("sub", 8, 5)):
@@ -407,8 +479,8 @@ def part_aq(rn):
     ctx, rep, q = rn.ctx, rn.ctx.rep, rn.ctx.quick
     scns = gen_aq(ctx.tier)
     sp = dump(ctx, "aq_scenarios.json", scns)
-    rn.submit("aq", scns, "dfs", ["--mode", "dfs", "--scenarios", sp, "--bound", 2 if q else 3, "--cap", 70 if q else 1000], len(scns))
-    rn.submit("aq", scns, "random", ["--mode", "random", "--scenarios", sp, "--seed", ctx.seed, "--cap", 30 if q else 200], len(scns))
+    rn.submit("aq", scns, "dfs", ["--mode", "dfs", "--scenarios", sp, "--bound", 2 if q else 3, "--cap", 50 if q else 1000], len(scns))
+    rn.submit("aq", scns, "random", ["--mode", "random", "--scenarios", sp, "--seed", ctx.seed, "--cap", 25 if q else 200], len(scns))
     has_rev_hooks = "sched.aq.r_load" in open(os.path.join(ctx.repo, "include/unifex/detail/atomic_intrusive_queue.hpp")).read()
     mc = [s for s in scns if s["items"] <= 3] if q else scns
     spm = dump(ctx, "aq_scenarios_mc.json", mc)
@@ -439,8 +511,8 @@ def part_pool(rn):
     ctx, rep, q = rn.ctx, rn.ctx.rep, rn.ctx.quick
     scns = gen_ctx("pool", ctx.tier)
     sp = dump(ctx, "pool_scenarios.json", scns)
-    rn.submit("pool", scns, "dfs", ["--mode", "dfs", "--scenarios", sp, "--bound", 2 if q else 3, "--cap", 80 if q else 1500], len(scns))
-    rn.submit("pool", scns, "random", ["--mode", "random", "--scenarios", sp, "--seed", ctx.seed, "--cap", 50 if q else 400], len(scns))
+    rn.submit("pool", scns, "dfs", ["--mode", "dfs", "--scenarios", sp, "--bound", 2 if q else 3, "--cap", 60 if q else 1500], len(scns))
+    rn.submit("pool", scns, "random", ["--mode", "random", "--scenarios", sp, "--seed", ctx.seed, "--cap", 40 if q else 400], len(scns))
     for wrap, dcap, rcap in (("any", 20, 12), ("ref", 10, 8), ("sub", 10, 8)):
         ws = wrapped(scns[:6], wrap)
         wp = dump(ctx, "pool_%s_scenarios.json" % wrap, ws)
